@@ -14,11 +14,11 @@ WRAPS = ['pthread_mutex_lock', 'pthread_mutex_unlock', 'pthread_mutex_trylock']
 KF_SIG = ('coap_check_notify_lkd', 'coap_delete_resource_lkd')
 
 
-def one_run(drv, out, name, thr, ms, seed, with_res, keepalive=0):
+def one_run(drv, out, name, thr, ms, seed, with_res, keepalive=0, signals=0):
     tr = os.path.join(out, name + '.ndjson')
     if os.path.exists(tr):
         os.unlink(tr)
-    rc, o = V.run_driver(drv, [tr, str(thr), str(ms), str(seed), '1' if with_res else '0', str(keepalive)], timeout=120)
+    rc, o = V.run_driver(drv, [tr, str(thr), str(ms), str(seed), '1' if with_res else '0', str(keepalive), str(signals)], timeout=120)
     res = None
     if os.path.exists(tr) and os.path.getsize(tr) > 0:
         r = V.validate_traces('Trace_Lock', [tr], xmx='6g', timeout=900)[0]
@@ -38,16 +38,17 @@ def run(pid, tier):
     if 'NoLeak is violated' not in neg['out']:
         raise V.Infra('Lock model sanity: the as-written callback macro is NOT rejected by the model')
     # (threads, with resource add/delete, keepalive seconds): the keepalive run lasts long enough for the I/O loop to ping the idle session
-    plan = [(2, 0, 0), (4, 0, 0), (8, 0, 0), (3, 1, 0), (6, 1, 0), (2, 0, 1)] if tier == 'quick' else \
-        [(n, w, 0) for n in (2, 3, 4, 5, 6, 7, 8) for w in (0, 0, 1)] + [(n, 0, 1) for n in (2, 5, 8)]
+    # the 4th element: SIGUSR1 is thrown at the I/O thread every 0.7 ms (its waits return EINTR)
+    plan = [(2, 0, 0, 0), (4, 0, 0, 0), (8, 0, 0, 0), (3, 1, 0, 0), (6, 1, 0, 0), (2, 0, 1, 0), (3, 0, 0, 1), (6, 0, 0, 1)] if tier == 'quick' else \
+        [(n, w, 0, 0) for n in (2, 3, 4, 5, 6, 7, 8) for w in (0, 0, 1)] + [(n, 0, 1, 0) for n in (2, 5, 8)] + [(n, w, 0, 1) for n in (2, 4, 6, 8) for w in (0, 1)]
     ms = 250 if tier == 'quick' else 1500
     vio_out, known, nval, ncalls, nacq, vac = [], set(), 0, 0, 0, 0
     kf_enabled = any(f['id'] == 'KF_C13_ITERATION_ACROSS_RELEASED_CALLBACK' for f in V.enabled_findings(pid))
     samples = []
-    for k, (thr, wres, ka) in enumerate(plan):
+    for k, (thr, wres, ka, sg) in enumerate(plan):
         attempts = []
         for att in range(2):
-            rc, o, res, tr = one_run(drv, out, 'run-%02d-%d' % (k, att), thr, max(ms, 2400) if ka else ms, V.seed() * 100 + k * 2 + att, wres, ka)
+            rc, o, res, tr = one_run(drv, out, 'run-%02d-%d' % (k, att), thr, max(ms, 2400) if ka else ms, V.seed() * 100 + k * 2 + att, wres, ka, sg)
             reps = V.sanitizer_reports(o)
             crash = rc != 0 or any(r[0] == 'asan' for r in reps)
             is_kf = crash and all(s in o for s in KF_SIG) and 'heap-use-after-free' in o
